@@ -47,9 +47,11 @@ func (g *generator) run(r *runner) {
 	for i := 0; i < n; i++ {
 		id := fmt.Sprintf("%s-%d-%d", g.prop, g.seed, i)
 		c := g.newCase(g.prop, i)
-		if len(c.fixed) == 0 && c.cfg.Lvl == 1 && g.chance(4) {
+		hugeIdx := (g.tier == "thorough" && i%100 == 50) || i == 1000 || i == 1037 || i == 1074
+		if len(c.fixed) == 0 && c.cfg.Lvl == 1 && !hugeIdx && g.chance(4) {
 			g.burst(c)
-		} else if len(c.fixed) == 0 && c.cfg.Lvl == 1 && ((g.tier == "thorough" && i%100 == 50) || i == 1000 || i == 1037 || i == 1074) {
+		} else if len(c.fixed) == 0 && hugeIdx {
+			c.cfg.Lvl = 1
 			if g.tier != "thorough" {
 				// quick: one huge case per bulk-capable kind of the property, at most three; properties that
 				// range over many kinds get a single one
@@ -154,6 +156,7 @@ func (g *generator) huge(c *caseGen) {
 			{Name: "Clear"}, {Name: "Add", Vs: pick(4)}, {Name: "Union", Vs: vals}, {Name: "Inter", Vs: vals}, {Name: "Diff", Vs: vals},
 			{Name: "Add", Vs: pick(40)}, {Name: "Inter", Vs: pick(5)}, {Name: "Diff", Vs: pick(2)}, {Name: "Union", Vs: pick(3)}}
 	case "BinaryHeap":
+		c.cfg.KCmp = "CDiv3" // ties between distinguishable elements: Values() and the iterator must still agree
 		first = &Op{Name: "PushAll", Vs: vals}
 		more = []*Op{{Name: "Pop"}, {Name: "Clear"}, {Name: "Push", I: 5}} // the level-sorted Values() of a big heap is costly to replay
 	case "ArrayStack", "LinkedListStack", "ArrayQueue", "LinkedListQueue", "PriorityQueue":
@@ -212,6 +215,8 @@ func hugeKinds(prop string) []string {
 		return []string{"BinaryHeap"}
 	case "C14":
 		return []string{"DoublyLinkedList", "SinglyLinkedList", "LinkedHashSet"}
+	case "C08":
+		return []string{"BinaryHeap"}
 	}
 	return nil
 }
@@ -938,6 +943,12 @@ func (g *generator) newCase(prop string, i int) *caseGen {
 
 // C07: ordinary tree histories at lvl 1 plus long histories at lvl 0 over a large key range.
 func (g *generator) caseC07() *caseGen {
+	if g.chance(12) { // "hence TreeMap, TreeSet, TreeBidiMap": including the trees of derived containers
+		kind := g.pick([]string{"TreeSet", "TreeSet", "TreeMap", "TreeBidiMap"})
+		c := g.baseCase(kind)
+		c.plan = g.mixPlan(kind, g.length(), 80, 3, append(append([]wname{}, enumOps...), algebraOps...))
+		return c
+	}
 	kind := g.pick(treeKinds)
 	if g.chance(55) {
 		c := g.baseCase(kind)
